@@ -3,12 +3,12 @@ Theorems: coq/Props/C05.v.  Correspondence: witness rules w_i :- not not &del{de
 every horizon, w_i(k) iff LDL.dsat (extracted from Coq) of delta_i at k; paths in the documented normal form (iteration only over
 step-consuming bodies), atoms with and without arguments as test-then-step; plus constraints over &del atoms vs Oracle.tsm_enum."""
 import json
-import gen, s4, lang
+import gen, s4, lang, thstruct
 from props import c01, c03
 
 PROP_FILE = 'Props/C05.v'
 GROUPS = ['imain', 'theory', 'dynamic']
-LEAF_LEMMAS = []
+LEAF_LEMMAS = ['reduce_eqs_hold']
 ASSUMPTIONS = ['gringo/clasp contract G1-G6 (DESIGN.md 5.3)', 'non-normal paths (iteration over bodies that may not consume a step) are outside the property and only checked for their outcome class in C15']
 
 
@@ -87,6 +87,16 @@ def run(ctx):
     H2 = 3 if ctx.quick else 4
     recs2 = s4.compare(ctx, [p for _, p in progs], H2, maxbits)
     res2 = c01.summarize(ctx, progs, recs2, H2, maxbits, 'C05')
+    # structural correspondence: the operational model with the dynamic layer (Model/BodyTheoryFull.v, Dia / Box over the regenerated construction
+    # tables) and Theory.translate emit the same constraints, event by event, for programs with &del atoms
+    scs = [fs for fs in thstruct.cases(ctx, 120 if ctx.quick else 500) if any(f[0] == 'DEL' for _, f in fs)]
+    srecs = thstruct.compare(ctx, scs, H)
+    sstat = {}
+    for fs, r in zip(scs, srecs):
+        sstat[r['status']] = sstat.get(r['status'], 0) + 1
+        if r['status'] in ('differ', 'implerror', 'modelerror'):
+            cex.append({'key': 'c05:structure:' + r['program'].replace('\n', ' '), 'what': 'Theory.translate and the model Model/BodyTheoryFull.v differ on a program with &del atoms: %s' % r.get('what'),
+                        'input': {'structure': [[p_, f] for p_, f in fs], 'H': H, 'program': r['program']}})
     ops = {}
     for c, fs in its:
         for _, f in fs:
@@ -95,10 +105,10 @@ def run(ctx):
     for r in recs:
         stat[r['status']] = stat.get(r['status'], 0) + 1
     nontriv = len({r['program'] for r in recs if r['status'] == 'agree' and 0 < r['true_values'] < r['values']})
-    cov = {'evaluations': len(recs) + len(recs2), 'distinct_nontrivial': nontriv + res2['coverage']['distinct_nontrivial'],
+    cov = {'evaluations': len(recs) + len(recs2) + len(srecs), 'structure_status_histogram': sstat, 'structure_events_compared': sum(r['events'] for r in srecs), 'distinct_nontrivial': nontriv + res2['coverage']['distinct_nontrivial'],
            'rule': 'witness programs: random context + 1-3 witness rules over &del formulas (nesting <= 3, normal-form paths of depth <= 3, atoms a, b, p(1)); horizons 0..%d of one '
                    'incremental run; every state of (a seeded sample of) the answer sets compared with LDL.dsat; non-trivial = witness values neither all true nor all false; '
-                   'constraint programs: %s' % (H, res2['coverage']['rule']),
+                   'constraint programs: %s; structure: %d programs with &del atoms (normal-form paths; alone, next to the other modality / a sub-formula / &tel formulas), the backend calls of Theory.translate compared event by event with the extracted operational model' % (H, res2['coverage']['rule'], len(srecs)),
            'answer_sets_checked': sum(r['models'] for r in recs), 'values_checked': sum(r['values'] for r in recs), 'operator_histogram': dict(sorted(ops.items())),
            'status_histogram': stat, 'constraint_status_histogram': res2['coverage']['status_histogram'],
            'samples': [{'program': recs[i]['program'], 'status': recs[i]['status'], 'values': recs[i]['values']} for i in (0, len(recs) // 2)]}
